@@ -1,11 +1,23 @@
-//! C07: actions are atomic (real VmPolicy on the real runtime, MemStorageProvider).
-use std::{borrow::Cow, collections::BTreeMap};
+//! C07: actions are atomic (real VmPolicy on the real runtime, MemStorageProvider; one part runs
+//! the same scenarios on a fault-injecting wrapper of the in-memory linear storage back end).
+use std::{
+    borrow::Cow,
+    collections::BTreeMap,
+    sync::{Arc, Mutex},
+};
 
 use aranya_crypto::DeviceId;
 use aranya_policy_vm::{FactValue, Machine, Struct, Value, ffi::FfiModule as _, ident};
 use aranya_runtime::{
-    Address, CmdId, FfiCallable, GraphId, Location, MaxCut, MemSpill, Prior, Priority, SegmentIndex, Storage as _,
-    StorageProvider as _, VmAction, VmPolicy, storage::linear::testing::MemStorageProvider,
+    Address, ClientError, ClientState, CmdId, FfiCallable, GraphId, HeadSet, Location, MaxCut, MemSpill, Prior, Priority,
+    RuntimeBuffers, SegmentIndex, Storage as _, StorageError, StorageProvider, VmAction, VmPolicy,
+    storage::{
+        HeadSetOffset,
+        linear::{
+            FactCacheOffset, IoManager, LinearStorageProvider, Read, Write,
+            testing::{Manager, MemStorageProvider, Reader, Writer},
+        },
+    },
     vm_policy::testing::TestFfiEnvelope,
 };
 use proptest::prelude::*;
@@ -496,7 +508,13 @@ fn f(sig: &str, detail: String) -> Failure {
     Failure::new(sig, detail)
 }
 
+#[derive(Default)]
 pub struct Stats {
+    /// fault part only: the snapshot taken at the end of the previous operation; the next operation
+    /// must start from exactly this state
+    pub last: Option<rt::Snapshot>,
+    pub fault_errs: u32,
+    pub ok_after_fault: u32,
     pub next_tag: i64,
     pub fail_after_publish: u32,
     pub multi_head_tests: u32,
@@ -515,14 +533,64 @@ pub fn checked_action(
     info: &mut CaseInfo,
     under_test: bool,
 ) -> Result<bool, Failure> {
+    checked_action_on(c, g, bufs, a, st, info, under_test, None)
+}
+
+/// Heads, committed ids (graph walk) and fact scan of any client.
+pub fn snap<SP: StorageProvider>(c: &mut ClientState<Store<Eng>, SP>, g: GraphId) -> Result<(rt::Snapshot, rt::GraphView), String> {
+    let stg = c.provider().get_storage(g).map_err(|e| format!("get_storage: {e}"))?;
+    let view = rt::walk(&*stg)?;
+    let facts = rt::scan_facts(&*stg, FACT_NAMES)?;
+    Ok((rt::Snapshot { heads: view.heads.clone(), ids: view.ids(), facts }, view))
+}
+
+/// `checked_action` on any storage provider; with `fault`, the storage fault is armed for exactly
+/// the duration of the `ClientState::action` call (the harness' own reads are never faulted).
+#[allow(clippy::too_many_arguments)]
+pub fn checked_action_on<SP: StorageProvider>(
+    c: &mut ClientState<Store<Eng>, SP>,
+    g: GraphId,
+    bufs: &mut RuntimeBuffers<SP::Segment>,
+    a: &Act,
+    st: &mut Stats,
+    info: &mut CaseInfo,
+    under_test: bool,
+    fault: Option<(&FaultCtl, &Fault)>,
+) -> Result<bool, Failure> {
     let tag0 = st.next_tag;
     st.next_tag += 4;
-    let (pre, _pre_view) = rt::snapshot(c, g, FACT_NAMES).map_err(|e| f("harness: snapshot failed", e))?;
+    let (pre, _pre_view) = snap(c, g).map_err(|e| f("harness: snapshot failed", e))?;
+    if let Some(last) = &st.last {
+        ensure!(pre.heads == last.heads, "head set changed between two operations", "action {} before={:?} now={:?}", action_name(a.which), last.heads, pre.heads);
+        ensure!(pre.ids == last.ids, "committed command set changed between two operations", "action {}", action_name(a.which));
+        ensure!(pre.facts == last.facts, "fact state changed between two operations", "action {}", action_name(a.which));
+    }
     let pre_facts = decode_slots(&pre.facts).map_err(|e| f("stored facts do not decode", e))?;
     let sim = simulate(&pre_facts, a, tag0, under_test);
     let mut sink = RecSink::new();
+    if let Some((ctl, fl)) = fault {
+        ctl.arm(fl);
+    }
     let res = c.action(g, &mut sink, vm_action(a, &sim.eff, tag0), bufs, MemSpill::new);
-    let (post, view) = rt::snapshot(c, g, FACT_NAMES).map_err(|e| f("graph unreadable after action", e))?;
+    let fired = fault.map(|(ctl, _)| ctl.disarm()).unwrap_or(0);
+    let (post, view) = snap(c, g).map_err(|e| f("graph unreadable after action", e))?;
+    if st.last.is_some() {
+        st.last = Some(post.clone());
+    }
+    if let Some((_, fl)) = fault {
+        let kind = fl.kind_name();
+        match (fired > 0, res.is_ok()) {
+            (false, _) => info.label(format!("fault_not_reached:{kind}")),
+            (true, true) => info.label(format!("fault_tolerated:{kind}")),
+            (true, false) => {
+                info.label(format!("fault_err:{kind}"));
+                info.label(format!("fault_err_heads_{}", pre.heads.len().min(3)));
+                st.fault_errs += 1;
+            }
+        }
+    } else if st.fault_errs > 0 && res.is_ok() && sim.published > 0 {
+        st.ok_after_fault += 1;
+    }
     let (committed, stray) = sink.committed();
     let name = action_name(a.which);
     let ctx = || format!("action {name} stop={} go={} specs={:?} tag0={tag0} heads_before={:?} model={:?}", a.stop, a.go, sim.eff, pre.heads, sim.failed);
@@ -617,8 +685,12 @@ pub fn checked_action(
         }
         Err(e) => {
             st.err_actions += 1;
-            if sim.failed.is_none() && sim.published > 0 {
+            if sim.failed.is_none() && sim.published > 0 && fired == 0 {
                 fail!("action failed although the model says it succeeds", "{} error={e}", ctx());
+            }
+            if fired > 0 && sim.failed.is_none() {
+                // how the injected fault surfaced is not prescribed (a faulted fact query surfaces as a policy error)
+                info.label(if matches!(e, ClientError::StorageError(_)) { "fault_surfaced_as_storage_error" } else { "fault_surfaced_as_other_error" });
             }
             if sim.failed.is_none() {
                 info.label("zero_publish_err");
@@ -649,14 +721,7 @@ pub fn checked_action(
 
 pub fn check_case(m: &Machine, case: &Case, info: &mut CaseInfo) -> CheckResult {
     let mut bufs: Box<Buffers> = Box::new(Buffers::new());
-    let mut st = Stats {
-        next_tag: 1,
-        fail_after_publish: 0,
-        multi_head_tests: 0,
-        multi_head_fail_after_publish: 0,
-        ok_actions: 0,
-        err_actions: 0,
-    };
+    let mut st = Stats { next_tag: 1, ..Stats::default() };
     let mut c0 = new_client(m, 0);
     let mut sink = RecSink::new();
     let g = c0
@@ -716,6 +781,328 @@ pub fn check_case(m: &Machine, case: &Case, info: &mut CaseInfo) -> CheckResult 
     Ok(())
 }
 
+// ---------------------------------------------------------------------------------------------
+// fault-injecting storage back end (wraps the in-memory linear back end through the public
+// IoManager / Write / Read traits)
+
+pub const FK_COMMIT: u8 = 0;
+pub const FK_APPEND: u8 = 1;
+pub const FK_FETCH: u8 = 2;
+
+/// The `k`-th (0-based) back-end call of `kind` after arming fails with `StorageError::IoError`
+/// without reaching the wrapped back end; `sticky`: every later call of that kind fails as well
+/// (until disarmed).
+#[derive(Clone, Debug, Serialize, Deserialize, PartialEq, Eq)]
+pub struct Fault {
+    pub kind: u8,
+    pub k: u8,
+    pub sticky: bool,
+}
+
+impl Fault {
+    pub fn kind_name(&self) -> &'static str {
+        match self.kind {
+            FK_COMMIT => "commit",
+            FK_APPEND => "append",
+            _ => "fetch",
+        }
+    }
+}
+
+#[derive(Default)]
+struct CtlState {
+    armed: Option<Fault>,
+    seen: u32,
+    fired: u32,
+}
+
+#[derive(Default)]
+pub struct FaultCtl(Mutex<CtlState>);
+
+impl FaultCtl {
+    pub fn arm(&self, f: &Fault) {
+        let mut s = self.0.lock().expect("ctl");
+        *s = CtlState { armed: Some(f.clone()), seen: 0, fired: 0 };
+    }
+
+    /// Disarms; returns how many calls were failed since arming.
+    pub fn disarm(&self) -> u32 {
+        let mut s = self.0.lock().expect("ctl");
+        s.armed = None;
+        s.fired
+    }
+
+    fn hit(&self, kind: u8) -> bool {
+        let mut s = self.0.lock().expect("ctl");
+        let Some(f) = s.armed.clone() else { return false };
+        if f.kind != kind {
+            return false;
+        }
+        let n = s.seen;
+        s.seen += 1;
+        if n == u32::from(f.k) || (f.sticky && n > u32::from(f.k)) {
+            s.fired += 1;
+            return true;
+        }
+        false
+    }
+}
+
+pub struct FManager {
+    inner: Manager,
+    ctl: Arc<FaultCtl>,
+}
+
+pub struct FWriter {
+    inner: Writer,
+    ctl: Arc<FaultCtl>,
+}
+
+#[derive(Clone)]
+pub struct FReader {
+    inner: Reader,
+    ctl: Arc<FaultCtl>,
+}
+
+impl IoManager for FManager {
+    type Writer = FWriter;
+
+    fn create(&mut self, id: GraphId) -> Result<Self::Writer, StorageError> {
+        Ok(FWriter { inner: self.inner.create(id)?, ctl: Arc::clone(&self.ctl) })
+    }
+
+    fn open(&mut self, _id: GraphId) -> Result<Option<Self::Writer>, StorageError> {
+        Ok(None)
+    }
+
+    fn remove(&mut self, id: GraphId) -> Result<(), StorageError> {
+        self.inner.remove(id)
+    }
+
+    fn list(&mut self) -> Result<impl Iterator<Item = Result<GraphId, StorageError>>, StorageError> {
+        self.inner.list()
+    }
+}
+
+impl Write for FWriter {
+    type ReadOnly = FReader;
+
+    fn readonly(&self) -> Self::ReadOnly {
+        FReader { inner: self.inner.readonly(), ctl: Arc::clone(&self.ctl) }
+    }
+
+    fn heads(&self) -> Result<HeadSet, StorageError> {
+        self.inner.heads()
+    }
+
+    fn heads_offset(&self) -> Result<HeadSetOffset, StorageError> {
+        self.inner.heads_offset()
+    }
+
+    fn fact_cache(&self) -> Result<FactCacheOffset, StorageError> {
+        self.inner.fact_cache()
+    }
+
+    fn append<F, T>(&mut self, builder: F) -> Result<T, StorageError>
+    where
+        F: FnOnce(u64) -> T,
+        T: serde::Serialize,
+    {
+        if self.ctl.hit(FK_APPEND) {
+            // nothing was written
+            return Err(StorageError::IoError);
+        }
+        self.inner.append(builder)
+    }
+
+    fn commit(&mut self, heads: &HeadSet, fact_cache: FactCacheOffset) -> Result<(), StorageError> {
+        if self.ctl.hit(FK_COMMIT) {
+            // the control record could not be written: nothing is committed
+            return Err(StorageError::IoError);
+        }
+        self.inner.commit(heads, fact_cache)
+    }
+}
+
+impl Read for FReader {
+    fn fetch<T>(&self, offset: u64) -> Result<T, StorageError>
+    where
+        T: serde::de::DeserializeOwned,
+    {
+        if self.ctl.hit(FK_FETCH) {
+            return Err(StorageError::IoError);
+        }
+        self.inner.fetch(offset)
+    }
+}
+
+pub type FProvider = LinearStorageProvider<FManager>;
+pub type FClient = ClientState<Store<Eng>, FProvider>;
+pub type FBuffers = RuntimeBuffers<<FProvider as StorageProvider>::Segment>;
+
+pub fn new_fclient(m: &Machine, dev: u8, ctl: &Arc<FaultCtl>) -> FClient {
+    let ffis: Vec<Box<dyn FfiCallable<Eng> + Send + 'static>> = vec![Box::from(TestFfiEnvelope {
+        device: DeviceId::from_bytes([dev.wrapping_add(1); 32]),
+    })];
+    let policy = VmPolicy::new(m.clone(), rt::engine(u64::from(dev)), ffis).expect("VmPolicy::new");
+    ClientState::new(Store { policy }, LinearStorageProvider::new(FManager { inner: Manager::new(), ctl: Arc::clone(ctl) }))
+}
+
+#[derive(Clone, Debug, Serialize, Deserialize)]
+pub struct FCase {
+    pub base: Case,
+    /// fault for the i-th action under test (missing / null = none)
+    pub faults: Vec<Option<Fault>>,
+    /// fault for the first attempt to deliver the branches to client 0
+    pub deliver: Option<Fault>,
+}
+
+fn fault() -> impl Strategy<Value = Fault> {
+    (
+        prop_oneof![
+            5 => (Just(FK_COMMIT), prop_oneof![6 => Just(0u8), 1 => 1u8..3]),
+            3 => (Just(FK_APPEND), 0u8..6),
+            3 => (Just(FK_FETCH), prop_oneof![3 => 0u8..8, 1 => 8u8..40]),
+        ],
+        any::<bool>(),
+    )
+        .prop_map(|((kind, k), sticky)| Fault { kind, k, sticky })
+}
+
+fn fcase() -> impl Strategy<Value = FCase> {
+    (
+        case(2),
+        prop::collection::vec(prop::option::weighted(0.6, fault()), 4),
+        prop::option::weighted(0.35, fault()),
+    )
+        .prop_map(|(base, faults, deliver)| FCase { base, faults, deliver })
+}
+
+fn deliver_on<SP: StorageProvider>(
+    dst: &mut ClientState<Store<Eng>, SP>,
+    g: GraphId,
+    cmds: &[rt::OwnedCmd],
+    bufs: &mut RuntimeBuffers<SP::Segment>,
+) -> Result<usize, ClientError> {
+    let mut sink = RecSink::new();
+    let mut trx = dst.transaction(g);
+    let n = dst.add_commands(&mut trx, &mut sink, cmds, bufs, MemSpill::new)?;
+    dst.commit(trx, &mut sink, bufs, MemSpill::new)?;
+    Ok(n)
+}
+
+fn all_cmds<SP: StorageProvider>(c: &mut ClientState<Store<Eng>, SP>, g: GraphId) -> Result<Vec<rt::OwnedCmd>, Failure> {
+    let stg = c.provider().get_storage(g).map_err(|e| f("harness: get_storage", e.to_string()))?;
+    Ok(rt::walk(&*stg).map_err(|e| f("harness: walk", e))?.topo())
+}
+
+/// Delivers `cmds` to `c0`; with a fault, the first attempt runs with the fault armed and, if it
+/// fails, must leave heads / committed ids / facts untouched, and the retry (fresh transaction,
+/// fault cleared) must succeed.
+fn deliver_with_fault(
+    c0: &mut FClient,
+    ctl: &FaultCtl,
+    g: GraphId,
+    cmds: &[rt::OwnedCmd],
+    bufs: &mut FBuffers,
+    fault: Option<&Fault>,
+    st: &mut Stats,
+    info: &mut CaseInfo,
+) -> CheckResult {
+    if let Some(fl) = fault {
+        let (pre, _) = snap(c0, g).map_err(|e| f("harness: snapshot failed", e))?;
+        ctl.arm(fl);
+        let r = deliver_on(c0, g, cmds, bufs);
+        let fired = ctl.disarm();
+        let kind = fl.kind_name();
+        match r {
+            Ok(_) => {
+                info.label(if fired > 0 { format!("deliver_fault_tolerated:{kind}") } else { format!("deliver_fault_not_reached:{kind}") });
+                return Ok(());
+            }
+            Err(e) => {
+                ensure!(fired > 0, "harness: delivering branches failed without a fault", "{e}");
+                info.label(format!("deliver_fault_err:{kind}"));
+                st.fault_errs += 1;
+                let (post, _) = snap(c0, g).map_err(|e| f("graph unreadable after a failed transaction", e))?;
+                ensure!(post.heads == pre.heads, "failed transaction changed the head set", "fault={fl:?} error={e} before={:?} after={:?}", pre.heads, post.heads);
+                ensure!(post.ids == pre.ids, "failed transaction changed the committed command set", "fault={fl:?} error={e} added={:?}", post.ids.difference(&pre.ids).collect::<Vec<_>>());
+                ensure!(post.facts == pre.facts, "failed transaction changed the fact state", "fault={fl:?} error={e}");
+            }
+        }
+    }
+    deliver_on(c0, g, cmds, bufs).map_err(|e| f(if fault.is_some() { "delivery fails after the storage fault was cleared" } else { "harness: delivering branches failed" }, e.to_string()))?;
+    Ok(())
+}
+
+/// The scenario of `check_case` on the fault-injecting back end. Faults are armed only around the
+/// calls under test on client 0.
+pub fn check_fault_case(m: &Machine, fc: &FCase, info: &mut CaseInfo) -> CheckResult {
+    let case = &fc.base;
+    let mut bufs: Box<FBuffers> = Box::new(FBuffers::new());
+    let mut st = Stats { next_tag: 1, ..Stats::default() };
+    let ctl0 = Arc::new(FaultCtl::default());
+    let mut c0 = new_fclient(m, 0, &ctl0);
+    let mut sink = RecSink::new();
+    let g = c0
+        .new_graph(&[0u8], VmAction { name: ident!("init"), args: Cow::Owned(vec![Value::Int(1)]) }, &mut sink)
+        .map_err(|e| f("harness: new_graph failed", e.to_string()))?;
+    for a in &case.prefix {
+        checked_action_on(&mut c0, g, &mut bufs, a, &mut st, info, false, None)?;
+    }
+    let mut others: Vec<FClient> = Vec::new();
+    for (i, acts) in case.branches.iter().enumerate() {
+        let mut ci = new_fclient(m, (i + 1) as u8, &Arc::new(FaultCtl::default()));
+        let cmds = all_cmds(&mut c0, g)?;
+        deliver_on(&mut ci, g, &cmds, &mut bufs).map_err(|e| f("harness: transfer to branch client failed", e.to_string()))?;
+        for a in acts {
+            checked_action_on(&mut ci, g, &mut bufs, a, &mut st, info, false, None)?;
+        }
+        others.push(ci);
+    }
+    for a in &case.own {
+        checked_action_on(&mut c0, g, &mut bufs, a, &mut st, info, false, None)?;
+    }
+    // join: the first delivery may run under a fault
+    let mut dfault = fc.deliver.as_ref();
+    if case.one_trx {
+        let mut all: Vec<rt::OwnedCmd> = Vec::new();
+        for ci in &mut others {
+            all.extend(all_cmds(ci, g)?);
+        }
+        all.sort_by_key(|c| (c.max_cut(), c.id));
+        all.dedup_by_key(|c| c.id);
+        if !all.is_empty() {
+            deliver_with_fault(&mut c0, &ctl0, g, &all, &mut bufs, dfault.take(), &mut st, info)?;
+        }
+    } else {
+        for ci in &mut others {
+            let cmds = all_cmds(ci, g)?;
+            deliver_with_fault(&mut c0, &ctl0, g, &cmds, &mut bufs, dfault.take(), &mut st, info)?;
+        }
+    }
+    let (start, _) = snap(&mut c0, g).map_err(|e| f("harness: snapshot failed", e))?;
+    info.label(format!("start_heads_{}", start.heads.len()));
+    // from here on every operation must start from the state the previous one ended in
+    st.last = Some(start);
+    for (i, a) in case.tests.iter().enumerate() {
+        let fl = fc.faults.get(i).and_then(|x| x.as_ref());
+        checked_action_on(&mut c0, g, &mut bufs, a, &mut st, info, true, fl.map(|x| (&*ctl0, x)))?;
+    }
+    // with the fault cleared the client must keep working, and what it commits must be exactly
+    // what the model (which ignores the failed operations) says: two plain single-publish actions
+    for k in [0u8, 1] {
+        let probe = Act { which: 0, specs: vec![Spec { kind: 0, k, v: 1, mode: 0, auto: true }; 4], stop: 9, go: true };
+        let ok = checked_action_on(&mut c0, g, &mut bufs, &probe, &mut st, info, false, None)?;
+        ensure!(ok, "plain action fails after the storage fault was cleared", "probe k={k}");
+    }
+    if st.fault_errs > 0 {
+        info.nontrivial();
+        info.label("fault_err_then_ok");
+    }
+    Ok(())
+}
+
 pub fn run(ctx: &Ctx) -> ! {
     let mut rep = Report::new(ctx, "exploration");
     rep.assume("\"graph contents\" = the set of commands reachable from the committed heads (walked through Storage::get_segment / Segment::prior); segments written but never referenced by a committed head (e.g. the merge segments collapse_heads writes before a failing action) are not observable through the storage API and are not counted");
@@ -749,6 +1136,19 @@ pub fn run(ctx: &Ctx) -> ! {
         },
         n / 3,
         |c: &Case, info| check_case(&m, c, info),
+    );
+    rep.assume("storage faults: the in-memory linear back end wrapped through the public IoManager/Write/Read traits; a faulted append / commit / fetch returns StorageError::IoError and does not reach the back end (nothing is written); faults are armed only for the duration of the ClientState call under test");
+    rep.explore(
+        "storage_faults",
+        "the single_and_multi_head scenario (0-2 divergent clients) on a fault-injecting storage back end: for each action under test \
+         optionally the k-th Write::commit (k mostly 0) / Write::append (k<6) / Read::fetch (k<40) during that action fails, once or from then on; \
+         optionally the same kind of fault during the first delivery of the branches (add_commands + commit). Oracle: an operation that returns Err \
+         leaves heads, committed ids (graph walk) and the fact scan exactly as before and commits no effects; an action that returns Ok is a complete commit per the model; \
+         every operation starts from exactly the state the previous one ended in; after the fault is cleared delivery and two plain actions succeed and commit exactly what \
+         the model (ignoring the failed operations) says; non-trivial = at least one operation failed because of an injected fault",
+        fcase,
+        n / 2,
+        |c: &FCase, info| check_fault_case(&m, c, info),
     );
     rep.finish()
 }
